@@ -35,8 +35,9 @@ META = dict(
          'decides on every path that every value the parser accepted is '
          'restored equal and of identical type (recursively, -0.0 and '
          'container element types included), that a variable given again on '
-         'the command line at restart wins, and that others are still '
-         'restored.',
+         'the command line at restart wins - whatever its new value, falsy '
+         'ones (0, "", False, [], None, 0.0, {}) included - and that others '
+         'are still restored.',
     note='repr / ast.literal_eval / sqlite are C functions: values are '
          'concrete literals chosen by index.',
     functions=['load_template_vars', 'eval_var',
@@ -83,7 +84,10 @@ def same(a, b):
     return a == b
 
 
-def _run(si, sj, wi, two, override):
+OVERRIDES = [None, '0', '""', 'False', '[]', 'None', '7', '0.0', '{}']
+
+
+def _run(si, sj, wi, two, override, ovx=0):
     src = WRAPS[wi].format(SCALARS[si], SCALARS[sj])
     try:
         tv = load_template_vars([f'X={src}'] + (['Y="y"'] if two else []))
@@ -104,6 +108,9 @@ def _run(si, sj, wi, two, override):
         db.pub_dao.close()
         # --- restart
         cli = {'Y': 'cli'} if override else {}
+        if ovx:
+            # X given again at restart (falsy values included)
+            cli.update(load_template_vars([f'X={OVERRIDES[ovx]}']))
         schd = NS(template_vars=dict(cli))
         with CylcWorkflowDAO(os.path.join(srvd, 'db')) as dao:
             dao.select_workflow_template_vars(
@@ -111,7 +118,7 @@ def _run(si, sj, wi, two, override):
         got = schd.template_vars
         if set(got) != ({'X', 'Y'} if (two or override) else {'X'}):
             return False
-        if not same(got['X'], tv['X']):
+        if not same(got['X'], cli['X'] if ovx else tv['X']):
             return False
         if 'Y' in got and got['Y'] != ('cli' if override else 'y'):
             return False
@@ -122,11 +129,13 @@ def _run(si, sj, wi, two, override):
         shutil.rmtree(d, ignore_errors=True)
 
 
-def roundtrip(si: int, sj: int, wi: int, two: bool, override: bool) -> bool:
+def roundtrip(si: int, sj: int, wi: int, two: bool, override: bool,
+              ovx: int) -> bool:
     """
     pre: sl(wi=wi)
     pre: 0 <= si < len(SCALARS) and 0 <= sj < len(SCALARS)
-    pre: 0 <= wi < len(WRAPS)
+    pre: 0 <= wi < len(WRAPS) and 0 <= ovx < len(OVERRIDES)
+    pre: ovx == 0 or (wi == 0 and not two)
     pre: wi in (1, 3, 5, 6) or sj == 0
     pre: sj in SLICE.get('sjs', range(len(SCALARS)))
     pre: SLICE.get('both', True) or two == override
@@ -137,8 +146,9 @@ def roundtrip(si: int, sj: int, wi: int, two: bool, override: bool) -> bool:
               fork_int(sj, 0, len(SCALARS) - 1))
     wi = fork_int(wi, 0, len(WRAPS) - 1)
     two, override = fork_bool(two), fork_bool(override)
+    ovx = fork_int(ovx, 0, len(OVERRIDES) - 1)
     with concrete():
-        return _run(si, sj, wi, two, override)
+        return _run(si, sj, wi, two, override, ovx)
 
 
 def OBLIGATIONS(tier):
@@ -156,6 +166,7 @@ def VALIDATE():
     assert load_template_vars(['a=42', 'b="string"']) == {
         'a': 42, 'b': 'string'}
     assert _run(0, 0, 0, False, False) and _run(13, 2, 5, True, True)
+    assert _run(2, 0, 0, False, False, 1) and _run(13, 0, 0, False, True, 4)
     assert same([1, (2.0,)], [1, (2.0,)]) and not same(1, 1.0)
     assert not same(0.0, -0.0) and not same((1,), [1])
     return n + 5
